@@ -5,6 +5,7 @@ import (
 	"fmt"
 	"net"
 	"os"
+	"strings"
 	"sync"
 	"time"
 
@@ -12,8 +13,6 @@ import (
 	"github.com/omec-project/upf-epc/pfcpiface"
 	"github.com/prometheus/client_golang/prometheus"
 	dto "github.com/prometheus/client_model/go"
-	"github.com/wmnsk/go-pfcp/ie"
-	"github.com/wmnsk/go-pfcp/message"
 	"go.uber.org/zap/zapcore"
 )
 
@@ -125,24 +124,19 @@ func StartAgent(conf pfcpiface.Conf, bessAddr string) (*Agent, error) {
 		defer close(a.runDone)
 		a.Iface.Run()
 	}()
-	// wait for the PFCP socket: a heartbeat from a throw-away source must be answered
+	// wait for the PFCP socket passively (a probe datagram would create a connection object in
+	// the agent that outlives the start-up and receives digest reports first)
 	deadline := time.Now().Add(10 * time.Second)
-	var lastErr error
+	var lastErr error = fmt.Errorf("PFCP socket %s:%s not bound", conf.N4Addr, pfcpiface.PFCPPort)
 	for time.Now().Before(deadline) {
-		p, err := NewPeer("127.0.0.1:0", net.JoinHostPort(conf.N4Addr, pfcpiface.PFCPPort))
-		if err != nil {
-			return nil, err
-		}
-		_ = p.Send(message.NewHeartbeatRequest(1, ie.NewRecoveryTimeStamp(time.Unix(1700000000, 0)), nil))
-		_, err = p.Recv(100 * time.Millisecond)
-		p.Close()
-		lastErr = err
-		if err == nil {
+		if udpBound(conf.N4Addr, 8805) {
+			lastErr = nil
 			break
 		}
+		time.Sleep(2 * time.Millisecond)
 	}
 	if lastErr != nil {
-		return nil, fmt.Errorf("agent PFCP socket never answered: %w", lastErr)
+		return nil, lastErr
 	}
 	for time.Now().Before(deadline) {
 		c, err := net.DialTimeout("tcp", a.HTTP, 100*time.Millisecond)
@@ -154,6 +148,27 @@ func StartAgent(conf pfcpiface.Conf, bessAddr string) (*Agent, error) {
 		time.Sleep(5 * time.Millisecond)
 	}
 	return nil, fmt.Errorf("agent HTTP socket never answered: %w", lastErr)
+}
+
+// udpBound reports whether a UDP socket is bound to ip:port in this network namespace.
+func udpBound(ip string, port int) bool {
+	b, err := os.ReadFile("/proc/net/udp")
+	if err != nil {
+		return true // cannot tell; do not block
+	}
+	v4 := net.ParseIP(ip).To4()
+	if v4 == nil {
+		return true
+	}
+	want := fmt.Sprintf("%02X%02X%02X%02X:%04X", v4[3], v4[2], v4[1], v4[0], port)
+	any := fmt.Sprintf("00000000:%04X", port)
+	for _, line := range strings.Split(string(b), "\n") {
+		f := strings.Fields(line)
+		if len(f) > 1 && (f[1] == want || f[1] == any) {
+			return true
+		}
+	}
+	return false
 }
 
 // PFCPAddr is ip:8805 of this agent.
